@@ -12,7 +12,7 @@ mod fixtures;
 fn main() {
     let args = Args::parse();
     explorer::quiet_panics();
-    let code = match args.property.as_str() {
+    let code = explorer::guard_main(&args.property, || match args.property.as_str() {
         "C26" => c26::run(Report::new(&args, "model_checking")),
         "C27" => c27::run(Report::new(&args, "model_checking")),
         "C28" => c28::run(Report::new(&args, "model_checking")),
@@ -21,6 +21,6 @@ fn main() {
             eprintln!("vh-net: unknown property {other}");
             2
         }
-    };
+    });
     std::process::exit(code);
 }
